@@ -590,12 +590,12 @@ func checkC20(tier, replay string) int {
 		"indentation +-1, line drop/dup (family L), each mutated text also supplied at the three other " +
 		"argument positions device/netspoc/ipv6/raw (X), JSON/XML structural mutations (S, SX), info file " +
 		"mutations (I), garbage files (G), status file truncations/garbage for missing-approve (ST), " +
-		"valid generated pairs of the convergence generators for all five device types (V) and the same line / structure mutations applied to some of them (VL, VS). Cases are deduplicated by content hash of " +
+		"info files with every combination of 0-3 names and 0-3 addresses and JSON structure mutations in live compare sessions of all five device types through drc and do-approve, with a reachable and an unreachable device (LI), valid generated pairs of the convergence generators for all five device types (V) and the same line / structure mutations applied to some of them (VL, VS). Cases are deduplicated by content hash of " +
 		"all input files; a case is non-trivial if it differs from the unmutated original. " +
 		"Lines whose digit-normalised shape occurs more than 4 times in one text are skipped. " +
 		"quick = seeded 1-in-25 sample plus all known-finding reproducers; thorough = all."
 	rep.Assumptions = []string{
-		"do-approve is covered through drc's shared code path device.ApproveOrCompare (live-mode crashes are observed by C09/C17 runs)",
+		"configuration text mutations run in file mode (drc DEVICE NETSPOC, the code shared with live mode from device.ApproveOrCompare on); the login path of live sessions is driven by family LI and by the fault runs of C09/C17, which report crashes themselves",
 		"hang = child still running after 20 s, re-run with 60 s",
 	}
 
@@ -690,6 +690,75 @@ func checkC20(tier, replay string) int {
 	for f, n := range famCount {
 		rep.Count("family_"+f, n)
 	}
+
+	// Live sessions with mutated info files (family LI): the info file is
+	// also read by the login code of live sessions (name and address lists).
+	type liveIn struct {
+		lc     *liveCase
+		origin string
+	}
+	var liveInputs []liveIn
+	for _, typ := range []string{"asa", "ios", "linux", "panos", "nsx"} {
+		sc := liveScenarios(typ)[0]
+		var infos [][2]string
+		lists := [][]string{nil, {"router"}, {"router", "router-b"}, {"router", "router-b", "router-c"}}
+		ipl := [][]string{nil, {"10.1.13.33"}, {"10.1.13.33", "10.1.13.34"}, {"10.1.13.33", "10.1.13.34", "10.1.13.35"}}
+		for ni, names := range lists {
+			for ii, ips := range ipl {
+				m := map[string]any{"generated_by": "verif", "model": modelOf(typ)}
+				if names != nil {
+					m["name_list"] = names
+				}
+				if ips != nil {
+					m["ip_list"] = ips
+				}
+				b, _ := json.Marshal(m)
+				infos = append(infos, [2]string{string(b), fmt.Sprintf("names=%d/ips=%d", ni, ii)})
+			}
+		}
+		good, _ := json.Marshal(map[string]any{"generated_by": "verif", "model": modelOf(typ), "name_list": []string{"router"}, "ip_list": []string{"10.1.13.33"}})
+		mutateJSON(string(good), func(t, d string) { infos = append(infos, [2]string{t, "json:" + d}) })
+		for _, info := range infos {
+			for _, fe := range []string{"drc", "do-approve"} {
+				for _, unreachable := range []bool{false, true} {
+					total++
+					if tier == "quick" && rng.Intn(4) != 0 {
+						continue
+					}
+					lc := newLiveCase(sc, fe, true)
+					lc.InfoRaw = info[0] + "\n"
+					lc.Unreachable = unreachable
+					lc.Timeout = 1
+					liveInputs = append(liveInputs, liveIn{lc, fmt.Sprintf("live-info:%s/%s/%s/unreachable=%v", typ, fe, info[1], unreachable)})
+				}
+			}
+		}
+	}
+	rep.Count("family_LI", len(liveInputs))
+	env.Parallel(len(liveInputs), func(i int) {
+		li := liveInputs[i]
+		lr := li.lc.run(env)
+		defer lr.cleanup()
+		rep.Case(run.Hash(li.origin), true)
+		res := lr.Res
+		if li.lc.FrontEnd == "do-approve" {
+			// do-approve reports on stdout and keeps the details in the log.
+			res.Stderr += res.Stdout
+			for n, d := range lr.Files {
+				if strings.HasSuffix(n, ".compare") || strings.HasSuffix(n, ".drc") {
+					res.Stderr += d
+				}
+			}
+		}
+		v := judgeC20(li.lc.FrontEnd, res)
+		if v.Bad {
+			rep.Violation(v.Key, v.What+" ["+li.origin+"]", func(dir string) {
+				os.WriteFile(filepath.Join(dir, "info.json"), []byte(li.lc.InfoRaw), 0644)
+				os.WriteFile(filepath.Join(dir, "origin.txt"), []byte(li.origin+"\n"+strings.Join(lr.Argv, " ")+"\n"), 0644)
+				os.WriteFile(filepath.Join(dir, "stderr.txt"), []byte(lr.Res.Stderr), 0644)
+			})
+		}
+	})
 
 	// Inputs with huge files need gigabytes of memory in the Myers diff of
 	// the tool; run only few of them at once.
